@@ -546,10 +546,11 @@ class AddPartitionsToTxnHandler(BaseHandler):
                     raise error_type()
         if unauthorized_topics:
             exc = TopicAuthorizationFailedError(unauthorized_topics)
-            # Those partitions were not added to the transaction, so the
-            # batches waiting for them must not reach the partition leaders.
+            # None of the requested partitions was added to the transaction
+            # (the authorized ones were answered OPERATION_NOT_ATTEMPTED), so
+            # the batches waiting for them must not reach the partition leaders.
             self._sender._message_accumulator.fail_partitions(
-                [tp for tp in self._tps if tp.topic in unauthorized_topics], exc
+                [tp for tp in self._tps if tp not in txn_manager.txn_partitions], exc
             )
             txn_manager.error_transaction(exc)
         return None
